@@ -128,6 +128,10 @@ func (g *VCGen) modLoc(env *SpecEnv, e Expr) []modLoc {
 			v := env.ident(id.Name)
 			_ = v
 			return []modLoc{{heap: "G!" + smtSym(env.pkg.Name()+"."+id.Name), kind: "global"}}
+		case "chanof":
+			g.chanHeaps()
+			ch := env.tr(x.Args[0])
+			return []modLoc{{heap: chanSendsHeap, kind: "obj", ref: ch.T}, {heap: chanClosedHeap, kind: "obj", ref: ch.T}, {heap: chanCapHeap, kind: "obj", ref: ch.T}}
 		case "chanstate":
 			g.chanHeaps()
 			return []modLoc{{heap: chanSendsHeap, kind: "global"}, {heap: chanClosedHeap, kind: "global"}}
@@ -366,6 +370,25 @@ func (g *VCGen) havocAllBut(pre *State, keep []modLoc) *State {
 		}
 		heap := g.so.heapFor(et)
 		facts = append(facts, fmt.Sprintf("(= (select %s %s) (select %s %s))", g.heapTerm(post, heap), sv.T, g.heapTerm(pre, heap), sv.T))
+	}
+	// captured variables of a closure: the callee does not receive them (assumption: the enclosing function
+	// keeps them local, which is checked there by privateAlloc when it calls out)
+	if g.fn != nil {
+		for _, fv := range g.fn.FreeVars {
+			sv, ok := g.vals[fv]
+			if !ok {
+				continue
+			}
+			pt, ok := fv.Type().Underlying().(*types.Pointer)
+			if !ok {
+				continue
+			}
+			if _, isArr := pt.Elem().Underlying().(*types.Array); isArr || g.isImmutable(pt.Elem()) {
+				continue
+			}
+			heap := g.so.heapFor(pt.Elem())
+			facts = append(facts, fmt.Sprintf("(= (select %s %s) (select %s %s))", g.heapTerm(post, heap), sv.T, g.heapTerm(pre, heap), sv.T))
+		}
 	}
 	if len(facts) > 0 {
 		g.assumeHere(and(facts...))
